@@ -252,6 +252,7 @@ type extFacts struct {
 	arms                [][2]string // (type url literal, handler constructor)
 	deflt               string      // ArmReject | ArmMissing | ArmHandler "name" | ArmOther
 	noExt               string      // constructor used when there is no extension option
+	noExtHeight0        string      // … when additionally ctx.BlockHeight() == 0 (gentxs delivered from InitChain); = noExt unless the code distinguishes
 	returnsInsideIf     bool        // `return anteHandler(ctx, tx, sim)` inside the len(opts)>0 block
 }
 
@@ -438,7 +439,7 @@ func hasReturn(stmts []ast.Stmt) bool {
 // closure returned by NewAnteHandler or in same-package helpers it calls; it may be a `switch` over the type URL
 // or an `if url ==/!= <eth url>` with guard clauses; the URL may be a literal or a named constant.
 func extSwitch(files []File, fd *ast.FuncDecl) extFacts {
-	f := extFacts{deflt: "ArmMissing", noExt: "?"}
+	f := extFacts{deflt: "ArmMissing", noExt: "?", noExtHeight0: "?"}
 	if fd == nil {
 		return f
 	}
@@ -575,7 +576,34 @@ func extSwitch(files []File, fd *ast.FuncDecl) extFacts {
 			}
 		}
 		if h := handlerIn(others); h != "" {
-			f.noExt = h
+			f.noExt, f.noExtHeight0 = h, h
+			if h == "?multi" {
+				// `if ctx.BlockHeight() == 0 { A } else { B }` (or the mirrored test): gentxs are routed apart
+				for _, top := range others {
+					ast.Inspect(top, func(n ast.Node) bool {
+						ifs, ok := n.(*ast.IfStmt)
+						if !ok || ifs.Else == nil {
+							return true
+						}
+						eb, ok := ifs.Else.(*ast.BlockStmt)
+						if !ok {
+							return true
+						}
+						cond := Nospace(ifs.Cond)
+						a, b := handlerIn(ifs.Body.List), handlerIn(eb.List)
+						if a == "" || b == "" || a == "?multi" || b == "?multi" || !strings.Contains(cond, ".BlockHeight()") {
+							return true
+						}
+						switch {
+						case strings.HasSuffix(cond, ".BlockHeight()==0") || strings.HasSuffix(cond, ".BlockHeight()<=0") || strings.HasSuffix(cond, ".BlockHeight()<1"):
+							f.noExtHeight0, f.noExt = a, b
+						case strings.HasSuffix(cond, ".BlockHeight()!=0") || strings.HasSuffix(cond, ".BlockHeight()>0") || strings.HasSuffix(cond, ".BlockHeight()>=1"):
+							f.noExtHeight0, f.noExt = b, a
+						}
+						return true
+					})
+				}
+			}
 		}
 		break
 	}
@@ -1229,8 +1257,10 @@ func Emit(repo string) {
 	for _, a := range x.arms {
 		arms = append(arms, fmt.Sprintf("(%s, %s)", CoqString(a[0]), CoqString(a[1])))
 	}
-	fmt.Printf("Definition ext_switch : ext_facts := {| x_on_first_option := %s; x_arms := [%s]; x_default := %s; x_no_ext := %s; x_returns_inside := %s |}.\n",
-		CoqBool(x.switchOnFirstOption), strings.Join(arms, "; "), x.deflt, CoqString(x.noExt), CoqBool(x.returnsInsideIf))
+	fmt.Printf("Definition ext_switch : ext_facts := {| x_on_first_option := %s; x_arms := [%s]; x_default := %s; x_no_ext := %s; x_no_ext_height0 := %s; x_returns_inside := %s |}.\n",
+		CoqBool(x.switchOnFirstOption), strings.Join(arms, "; "), x.deflt, CoqString(x.noExt), CoqString(x.noExtHeight0), CoqBool(x.returnsInsideIf))
+	// the decorator list of the constructor that handles gentxs (= the non-EVM list unless routed apart)
+	fmt.Printf("Definition genesis_chain : list string := %s.\n", coqStrList(chainOf(findFunc(appFiles, x.noExtHeight0, ""))))
 
 	printGuard("guard_prevent_eth", guardOf(anteFiles, "AnteDecoratorPreventEtheruemTxMsgs"))
 	printGuard("guard_authz", guardOf(anteFiles, "AnteDecoratorAuthzGuard"))
